@@ -60,6 +60,9 @@ type Device struct {
 	RpmRead        ReadMode
 	Raw            string // RegRaw content
 	RawRead        ReadMode
+	// PwmReadGlitch, if > 0, counts PWM-register reads down; the read that brings it to 0 fails once with an I/O error
+	// (a sporadic EIO / a read racing a rewrite of the file), every other read is unaffected
+	PwmReadGlitch int
 	// GarbageText is what a ReadGarbage read returns (default "garbage\n"); whitespace-only content is a garbage shape too
 	GarbageText string
 	// Log of writes: "pwm=<v>" / "mode=<v>" (":refused" suffix for refused writes)
@@ -68,6 +71,9 @@ type Device struct {
 	// the reader has arrived
 	RpmGate    chan struct{}
 	RpmEntered chan struct{}
+	// the same for the NEXT read of a RegRaw register (a sensor input)
+	RawGate    chan struct{}
+	RawEntered chan struct{}
 	// OnWrite, if set, is called for every write (while the hook lock is held: it must not call
 	// back into this package); LogOff disables the Log slice
 	OnWrite func(entry string)
@@ -130,6 +136,12 @@ func regRead(path string, b binding) ([]byte, error) {
 		mode, v = d.RpmRead, strconv.Itoa(d.Rpm)
 	case RegRaw:
 		mode, v = d.RawRead, d.Raw
+	}
+	if b.reg == RegPwm && d.PwmReadGlitch > 0 {
+		d.PwmReadGlitch--
+		if d.PwmReadGlitch == 0 {
+			return nil, readErr(path, ReadErrOther)
+		}
 	}
 	switch mode {
 	case ReadOk:
@@ -200,6 +212,15 @@ func ReadFile(path string) ([]byte, error) {
 		// a slow RPM read: the reader is held here (without the hook lock) until the harness opens the gate
 		gate, entered := b.dev.RpmGate, b.dev.RpmEntered
 		b.dev.RpmGate = nil
+		mu.Unlock()
+		if entered != nil {
+			close(entered)
+		}
+		<-gate
+		mu.Lock()
+	} else if ok && b.reg == RegRaw && b.dev.RawGate != nil {
+		gate, entered := b.dev.RawGate, b.dev.RawEntered
+		b.dev.RawGate = nil
 		mu.Unlock()
 		if entered != nil {
 			close(entered)
@@ -304,6 +325,17 @@ func After(d time.Duration) <-chan time.Time {
 	fireWaiters()
 	mu.Unlock()
 	return w.ch
+}
+
+// Advance moves the virtual clock forward by d and fires the timers that are due (what a Sleep of some goroutine does,
+// without the sleep log entry).
+func Advance(d time.Duration) {
+	mu.Lock()
+	defer mu.Unlock()
+	if clockOn {
+		clockNs += int64(d)
+		fireWaiters()
+	}
 }
 
 // Sleep replaces time.Sleep in rewritten fan2go files: in virtual time it only advances the clock.
